@@ -303,6 +303,14 @@ def run(ck):
                     for nme, a, k in w.attrs.get("__calls__", []):
                         if nme == "writerow" and a and isinstance(a[0], VDict) and a[0].obj.items is not None and not a[0].obj.extra_unknown:
                             rows.append(list(a[0].obj.items.keys()))
+                # the file has one header line, written before the first row - also when the history is cleared and a second run
+                # follows (this scenario: two evaluations, clear_history(), two more)
+                csv_all = [c_[4].inst for c_ in p.interp.ext_calls if c_[0] == "csv.DictWriter" and isinstance(c_[4], VObj)]
+                seq_ = [nme for w in csv_all for nme, a, k in w.attrs.get("__calls__", []) if nme in ("writeheader", "writerow")]
+                if seq_ and "writeheader" in seq_:
+                    ck.check(seq_.count("writeheader") == 1 and seq_[0] == "writeheader", "C17.R3", cls + ":csv one header, first", m.site(),
+                             "over two runs with clear_history() in between the log receives %s: the header must be written once, before the first row (a second header in the middle makes the file's "
+                             "rows disagree with the evaluations)" % (seq_,), key="C17.R3|%s|csv header repeated" % cls)
                 if fl is None or not rows:
                     ck.undecided("C17.R3", cls + ":csv", m.site(), "CSV header / row not found (fields=%s rows=%d)" % (fl, len(rows)))
                 else:
